@@ -127,6 +127,11 @@ def pair(x):
     return (x, E(_v(x) + 1, prov(x)))
 
 
+def kv(x):
+    """(key, value): the key (parity) is shared by elements that differ as a whole"""
+    return (E(_v(x) % 2, prov(x)), x)
+
+
 def tsum(x):
     return E(leafsum(x), prov(x))
 
@@ -210,7 +215,7 @@ def idx0(x):
     return x[0]
 
 
-FUNCS = {f.__name__: f for f in (inc, dbl, neg, pair, tsum, size, wrap, add2, cnt, poly, is_even, lt3,
+FUNCS = {f.__name__: f for f in (inc, dbl, neg, pair, kv, tsum, size, wrap, add2, cnt, poly, is_even, lt3,
                                  acc_add, acc_max, acc_count, acc_rs, key_self, key_mod2,
                                  key_mod3, idx0, viadict)}
 
